@@ -4,6 +4,7 @@ import (
 	"fmt"
 	"go/token"
 	"go/types"
+	"strings"
 
 	"golang.org/x/tools/go/ssa"
 
@@ -1026,4 +1027,512 @@ func (c *Ctx) NoReadBeforeFetch(ob *core.Obligation, entry, fetch *ssa.Function,
 		}
 	}
 	ob.Pass(key, c.P.Pos(entry.Pos()), fmt.Sprintf("every path from the entry point fetches before the first cache read (%d functions read the cache only after their callers fetched)", n))
+}
+
+// ---------- the query sent to the store is complete ----------
+
+// FilteredQueryComplete: the query handed to Store.GetBalances is the pending query itself, or
+// a map filled from it in which the entry of an account is either the account's whole pending
+// list or is extended by append from its previous value. An entry overwritten with a fresh
+// list (one asset) loses the other assets that were still missing for that account.
+func (c *Ctx) FilteredQueryComplete(ob *core.Obligation, fetch *ssa.Function, pendingF *types.Var) {
+	if fetch == nil || pendingF == nil {
+		ob.Unknown("query-complete:roles", "-", "fetch function or pending-query field not found")
+		return
+	}
+	c.Touch(fetch)
+	var get ssa.CallInstruction
+	for _, ci := range core.Calls(fetch) {
+		if ci.Common().IsInvoke() && ci.Common().Method.Name() == "GetBalances" {
+			get = ci
+		}
+	}
+	key := "query-complete:" + core.SSAName(fetch)
+	if get == nil {
+		ob.Unknown(key, c.P.Pos(fetch.Pos()), "no call of Store.GetBalances in the fetch function")
+		return
+	}
+	q := get.Common().Args[len(get.Common().Args)-1]
+	// where the map is built
+	fn := fetch
+	mv := resolveLocal(q)
+	if call, ok := mv.(*ssa.Call); ok {
+		if sc := call.Call.StaticCallee(); sc != nil && c.P.InModule(sc) && len(sc.Blocks) > 0 {
+			fn = sc
+			c.Touch(sc)
+			mv = nil
+			for _, ret := range core.Returns(sc) {
+				if len(ret.Results) > 0 {
+					mv = resolveLocal(ret.Results[0])
+				}
+			}
+		}
+	}
+	if ld, ok := mv.(*ssa.UnOp); ok && core.FieldOf(ld.X) == pendingF {
+		ob.Pass(key, c.P.Pos(get.Pos()), "the whole pending query is sent")
+		return
+	}
+	mk, ok := mv.(*ssa.MakeMap)
+	if !ok {
+		ob.Unknown(key, c.P.Pos(get.Pos()), "the query sent to the store is neither the pending query nor a map built in the fetch function")
+		return
+	}
+	n := 0
+	bad := false
+	for _, r := range *mk.Referrers() {
+		mu, ok := r.(*ssa.MapUpdate)
+		if !ok || mu.Map != ssa.Value(mk) {
+			continue
+		}
+		n++
+		// (a) key and value of one iteration over the pending query
+		kx, ok1 := mu.Key.(*ssa.Extract)
+		vx, ok2 := mu.Value.(*ssa.Extract)
+		if ok1 && ok2 && kx.Tuple == vx.Tuple && kx.Index == 1 && vx.Index == 2 {
+			if nx, ok := kx.Tuple.(*ssa.Next); ok {
+				if rg, ok := nx.Iter.(*ssa.Range); ok {
+					if ld, ok := resolveLocal(rg.X).(*ssa.UnOp); ok && core.FieldOf(ld.X) == pendingF {
+						continue
+					}
+				}
+			}
+		}
+		// (b) extended from its previous value under the same key
+		if call, ok := mu.Value.(*ssa.Call); ok {
+			if b, ok := call.Call.Value.(*ssa.Builtin); ok && b.Name() == "append" {
+				if lk, ok := resolveLocal(call.Call.Args[0]).(*ssa.Lookup); ok && lk.X == ssa.Value(mk) && core.Canon(lk.Index) == core.Canon(mu.Key) {
+					continue
+				}
+			}
+		}
+		bad = true
+		ob.Fail(key, c.P.Pos(mu.Pos()), "an entry of the query sent to the store is overwritten with something other than the account's whole pending list (or its previous value extended): assets still missing for that account are dropped from the request and later read as zero")
+	}
+	_ = fn
+	if !bad {
+		ob.Pass(key, c.P.Pos(get.Pos()), fmt.Sprintf("%d update(s) of the query map: whole pending list per account, or extended by append", n))
+	}
+}
+
+// ---------- the balance-collecting traversal visits every child ----------
+
+// TraversalLoopsComplete: in the traversal that collects the balances to fetch, a loop over
+// child nodes is left only when the list is exhausted or with an error: skipping the rest of
+// a list makes the balances of the remaining sub-sources unknown to the run.
+func (c *Ctx) TraversalLoopsComplete(ob *core.Obligation, fns ...*ssa.Function) {
+	n := 0
+	for _, fn := range fns {
+		if fn == nil {
+			continue
+		}
+		c.Touch(fn)
+		pc := core.NewPathConds(fn)
+		for _, l := range loopsOf(fn) {
+			iff := l.head.Instrs[len(l.head.Instrs)-1].(*ssa.If)
+			if !isRangeCond(iff.Cond) {
+				continue
+			}
+			n++
+			key := "loop-complete:" + core.SSAName(fn)
+			bad := false
+			for _, e := range l.earlyExits(fn) {
+				if returnsErrorOnly(fn, e[1], pc) {
+					continue
+				}
+				bad = true
+				ob.Fail(key, c.P.Pos(lastPos(e[0])), "the loop over the children of a node is left before the list is exhausted (not through an error): the sub-trees that follow are not visited, so the balances they need are never requested")
+			}
+			// a `continue` that skips the descent is the same thing: every path through the body
+			// must pass a call (the descent)
+			if !bad {
+				ob.Pass(key, c.P.Pos(firstPos(l.head)), "left only when the list is exhausted or with an error")
+			}
+		}
+	}
+	if n == 0 {
+		ob.Unknown("loop-complete:none", "-", "no loop over child nodes found in the balance-collecting traversal")
+	}
+}
+
+// ---------- a store error is looked at before the answer is used ----------
+
+// StoreErrorCheckedFirst: after every call of a Store method, the results other than the error
+// are used only where the error has been tested to be nil. Using the (possibly partial or nil)
+// answer first and consulting the error later lets a failed request pass for a successful one
+// whenever the answer - or a cache - happens to contain what is looked for.
+func (c *Ctx) StoreErrorCheckedFirst(ob *core.Obligation, storeI *types.Named) {
+	if storeI == nil {
+		ob.Unknown("store-error-first:iface", "-", "Store interface not found")
+		return
+	}
+	n := 0
+	for _, fn := range c.P.ModuleFunctions() {
+		if relOfFn(fn) != "internal/interpreter" {
+			continue
+		}
+		var pc *core.PathConds
+		for _, ci := range core.Calls(fn) {
+			call, ok := ci.(*ssa.Call)
+			if !ok || !call.Call.IsInvoke() || !types.Identical(types.Unalias(call.Call.Value.Type()), types.Unalias(storeI)) {
+				continue
+			}
+			ei := -1
+			res := call.Call.Signature().Results()
+			for i := 0; i < res.Len(); i++ {
+				if types.Identical(res.At(i).Type(), types.Universe.Lookup("error").Type()) {
+					ei = i
+				}
+			}
+			if ei < 0 || res.Len() < 2 || call.Referrers() == nil {
+				continue
+			}
+			n++
+			c.Touch(fn)
+			if pc == nil {
+				pc = core.NewPathConds(fn)
+			}
+			key := "store-error-first:" + core.SSAName(fn) + ":" + call.Call.Method.Name()
+			var errv ssa.Value
+			for _, r := range *call.Referrers() {
+				if ex, ok := r.(*ssa.Extract); ok && ex.Index == ei {
+					errv = ex
+				}
+			}
+			if errv == nil {
+				ob.Fail(key, c.P.Pos(call.Pos()), "the error returned by the store is discarded")
+				continue
+			}
+			errNil := func(l core.Lit) bool {
+				bo, ok := l.Cond.(*ssa.BinOp)
+				if !ok || (bo.Op != token.NEQ && bo.Op != token.EQL) {
+					return false
+				}
+				var other ssa.Value
+				if core.IsNilConst(bo.Y) {
+					other = bo.X
+				} else if core.IsNilConst(bo.X) {
+					other = bo.Y
+				}
+				return other == errv && (bo.Op == token.EQL) == l.Val
+			}
+			bad := false
+			for _, r := range *call.Referrers() {
+				ex, ok := r.(*ssa.Extract)
+				if !ok || ex.Index == ei || ex.Referrers() == nil {
+					continue
+				}
+				for _, use := range *ex.Referrers() {
+					if _, isDbg := use.(*ssa.DebugRef); isDbg {
+						continue
+					}
+					// a store into a local is not a use yet: its loads are
+					if st, isSt := use.(*ssa.Store); isSt {
+						if al, isAl := st.Addr.(*ssa.Alloc); isAl && al.Referrers() != nil {
+							for _, r3 := range *al.Referrers() {
+								if ld, isLd := r3.(*ssa.UnOp); isLd && !pc.Requires(ld.Block(), errNil) {
+									bad = true
+									ob.Fail(key, c.P.Pos(ld.Pos()), "the answer of the store is used on a path on which its error has not been tested to be nil: a failed request can pass for a successful one")
+								}
+							}
+							continue
+						}
+					}
+					if !pc.Requires(use.Block(), errNil) {
+						bad = true
+						ob.Fail(key, c.P.Pos(use.Pos()), "the answer of the store is used on a path on which its error has not been tested to be nil: a failed request can pass for a successful one")
+					}
+				}
+			}
+			if !bad {
+				ob.Pass(key, c.P.Pos(call.Pos()), "the answer is only used where the error was tested to be nil")
+			}
+		}
+	}
+	if n == 0 {
+		ob.Unknown("store-error-first:none", "-", "no call of a Store method found")
+	}
+}
+
+// ---------- the lexer reads the text that was given ----------
+
+// LexerInputIsTheText: the character stream handed to the lexer is built from the parse
+// function's own text parameter, unmodified, and the Source kept in the result is that same
+// parameter: positions and tokens then refer to the text the caller has.
+func (c *Ctx) LexerInputIsTheText(ob *core.Obligation, parse *ssa.Function) {
+	if parse == nil {
+		return
+	}
+	c.Touch(parse)
+	var text *ssa.Parameter
+	for _, p := range parse.Params {
+		if b, ok := p.Type().Underlying().(*types.Basic); ok && b.Kind() == types.String {
+			text = p
+		}
+	}
+	key := "lexer-input:" + core.SSAName(parse)
+	if text == nil {
+		ob.Unknown(key, c.P.Pos(parse.Pos()), "the parse function has no text parameter")
+		return
+	}
+	n := 0
+	for _, ci := range core.Calls(parse) {
+		o := core.CalleeObj(ci.Common())
+		if o == nil || o.Pkg() == nil || !strings.Contains(o.Pkg().Path(), "antlr") || o.Name() != "NewInputStream" {
+			continue
+		}
+		n++
+		if resolveLocal(ci.Common().Args[0]) == ssa.Value(text) {
+			ob.Pass(key, c.P.Pos(ci.Pos()), "the lexer reads the text parameter itself")
+		} else {
+			ob.Fail(key, c.P.Pos(ci.Pos()), "the lexer is given something other than the text the caller passed ("+core.ShortVal(ci.Common().Args[0])+"): tokens and positions no longer describe the caller's text")
+		}
+	}
+	if n == 0 {
+		ob.Unknown(key, c.P.Pos(parse.Pos()), "no input stream is created in the parse function")
+	}
+}
+
+// ---------- traversal state is scoped ----------
+
+// RecursiveStateScoped: inside the recursive traversals of the checker, a field of the check
+// state is overwritten (not accumulated into) only if it is one of the fields that the
+// save/restore helpers put back when a nested node is left. A field that is reset at the
+// start of a node, filled while its children are visited and read afterwards is clobbered by
+// any nested node of the same kind.
+func (c *Ctx) RecursiveStateScoped(ob *core.Obligation, rel, stateType string) {
+	var fns []*ssa.Function
+	for _, f := range c.P.ModuleFunctions() {
+		if relOfFn(f) == rel {
+			fns = append(fns, f)
+		}
+	}
+	callees := func(f *ssa.Function) []*ssa.Function {
+		var out []*ssa.Function
+		for _, ci := range core.Calls(f) {
+			if sc := ci.Common().StaticCallee(); sc != nil && relOfFn(sc) == rel && len(sc.Blocks) > 0 {
+				out = append(out, sc)
+			}
+		}
+		out = append(out, f.AnonFuncs...)
+		return out
+	}
+	reaches := func(from, to *ssa.Function) bool {
+		seen := map[*ssa.Function]bool{}
+		work := callees(from)
+		for len(work) > 0 {
+			g := work[len(work)-1]
+			work = work[:len(work)-1]
+			if g == to {
+				return true
+			}
+			if seen[g] {
+				continue
+			}
+			seen[g] = true
+			work = append(work, callees(g)...)
+		}
+		return false
+	}
+	region := map[*ssa.Function]bool{}
+	for _, f := range fns {
+		if f.Parent() == nil && reaches(f, f) {
+			region[f] = true
+		}
+	}
+	for changed := true; changed; {
+		changed = false
+		for f := range region {
+			for _, g := range callees(f) {
+				if !region[g] {
+					region[g] = true
+					changed = true
+				}
+			}
+		}
+	}
+	// fields put back by an undo closure; helpers that return such a closure
+	restored := map[*types.Var]bool{}
+	helper := map[*ssa.Function]bool{}
+	for _, f := range fns {
+		if f.Parent() != nil || f.Signature.Results().Len() != 1 {
+			continue
+		}
+		if _, ok := f.Signature.Results().At(0).Type().Underlying().(*types.Signature); !ok {
+			continue
+		}
+		for _, an := range f.AnonFuncs {
+			for _, b := range an.Blocks {
+				for _, in := range b.Instrs {
+					if st, ok := in.(*ssa.Store); ok {
+						if fld := core.FieldOf(st.Addr); fld != nil && ownerOfVar(fld) == stateType {
+							restored[fld] = true
+							helper[f] = true
+							helper[an] = true
+						}
+					}
+				}
+			}
+		}
+	}
+	n := 0
+	for _, f := range fns {
+		if !region[f] || helper[f] {
+			continue
+		}
+		for _, b := range f.Blocks {
+			for _, in := range b.Instrs {
+				st, ok := in.(*ssa.Store)
+				if !ok {
+					continue
+				}
+				fld := core.FieldOf(st.Addr)
+				if fld == nil || ownerOfVar(fld) != stateType {
+					continue
+				}
+				n++
+				c.Touch(f)
+				key := "scoped:" + core.SSAName(f) + ":" + fld.Name()
+				// accumulation: f = append(f, ...)
+				if call, ok := st.Val.(*ssa.Call); ok {
+					if bi, ok := call.Call.Value.(*ssa.Builtin); ok && bi.Name() == "append" {
+						if ld, ok := call.Call.Args[0].(*ssa.UnOp); ok && core.FieldOf(ld.X) == fld {
+							ob.Pass(key, c.P.Pos(st.Pos()), "accumulated by append")
+							continue
+						}
+					}
+				}
+				if restored[fld] {
+					ob.Pass(key, c.P.Pos(st.Pos()), "a scoped field: the save/restore helpers put its value back when the nested node is left")
+					continue
+				}
+				ob.Fail(key, c.P.Pos(st.Pos()), "the field "+fld.Name()+" of the check state is overwritten inside a recursive traversal and nothing puts its value back: a nested node wipes what the enclosing node has collected so far")
+			}
+		}
+	}
+	if n == 0 {
+		ob.Pass("scoped:none", "-", "no field of the check state is written inside the recursive traversals")
+	}
+}
+
+// ---------- the inferred type of a variable is its declared type ----------
+
+// InferredVariableTypeIsDeclared: in the checker's type-inference function (the one that maps
+// an expression to a type name, answering a constant for what it cannot tell), the arm for a
+// variable returns the declared type's name or that constant - the interpreter reads a
+// variable by its declared type, whatever its origin.
+func (c *Ctx) InferredVariableTypeIsDeclared(ob *core.Obligation) {
+	ve := c.P.Named("internal/parser", "ValueExpr")
+	n := 0
+	for _, fn := range c.P.ModuleFunctions() {
+		if relOfFn(fn) != "internal/analysis" || fn.Signature.Results().Len() != 1 {
+			continue
+		}
+		if b, ok := fn.Signature.Results().At(0).Type().Underlying().(*types.Basic); !ok || b.Kind() != types.String {
+			continue
+		}
+		entries := clauseEntries(fn, ve)
+		e := entries["Variable"]
+		if e == nil || len(entries) < 3 {
+			continue
+		}
+		n++
+		c.Touch(fn)
+		key := "inferred-type:" + core.SSAName(fn)
+		bad := false
+		for _, ret := range core.Returns(fn) {
+			if !e.Dominates(ret.Block()) {
+				continue
+			}
+			v := resolveLocal(ret.Results[0])
+			if _, ok := core.ConstString(v); ok {
+				continue
+			}
+			if ld, ok := v.(*ssa.UnOp); ok && ld.Op == token.MUL {
+				if fa, ok := ld.X.(*ssa.FieldAddr); ok && ownerName(fa) == "TypeDecl" {
+					continue
+				}
+			}
+			if fv, ok := v.(*ssa.Field); ok && ownerOfField(fv.X.Type()) == "TypeDecl" {
+				continue
+			}
+			bad = true
+			ob.Fail(key, c.P.Pos(ret.Pos()), "the type inferred for a variable is not its declared type (nor the 'unknown' constant): "+core.ShortVal(v)+"; the interpreter gives a variable the type it is declared with, so expressions built on it are checked against the wrong type")
+		}
+		if !bad {
+			ob.Pass(key, c.P.Pos(firstPos(e)), "a variable is given its declared type name (or 'unknown')")
+		}
+	}
+	if n == 0 {
+		ob.Unknown("inferred-type:none", "-", "no type-inference function over expressions found in the checker")
+	}
+}
+
+// ---------- a notification always reaches the store ----------
+
+// NotificationAlwaysStored: in the handler, every path through the arm of an open / change
+// notification passes the call that stores the document: a notification is never dropped.
+func (c *Ctx) NotificationAlwaysStored(ob *core.Obligation, upd *ssa.Function) {
+	if upd == nil {
+		return
+	}
+	n := 0
+	for _, fn := range c.P.ModuleFunctions() {
+		if relOfFn(fn) != "internal/lsp" || fn == upd {
+			continue
+		}
+		for _, ci := range core.Calls(fn) {
+			if ci.Common().StaticCallee() != upd {
+				continue
+			}
+			n++
+			c.Touch(fn)
+			B := ci.Block()
+			// the arm: the closest block dominating the call that is entered by a successful
+			// comparison of a string with a constant (the method name)
+			var entry *ssa.BasicBlock
+			for _, b := range fn.Blocks {
+				iff, ok := b.Instrs[len(b.Instrs)-1].(*ssa.If)
+				if !ok {
+					continue
+				}
+				bo, ok := iff.Cond.(*ssa.BinOp)
+				if !ok || bo.Op != token.EQL {
+					continue
+				}
+				_, k1 := core.ConstString(bo.X)
+				_, k2 := core.ConstString(bo.Y)
+				if !k1 && !k2 {
+					continue
+				}
+				e := b.Succs[0]
+				if e.Dominates(B) && (entry == nil || entry.Dominates(e)) {
+					entry = e
+				}
+			}
+			key := "notify-stored:" + core.SSAName(fn)
+			if entry == nil {
+				entry = fn.Blocks[0]
+			}
+			avoid := map[*ssa.BasicBlock]bool{B: true}
+			for k := range c.deadBlocks(fn) {
+				avoid[k] = true
+			}
+			bad := false
+			for _, ret := range core.Returns(fn) {
+				if !entry.Dominates(ret.Block()) || ret.Block() == B {
+					continue
+				}
+				if core.ReachableAvoiding(entry, ret.Block(), avoid) {
+					bad = true
+					ob.Fail(key, c.P.Pos(ret.Pos()), "a path through the notification's arm returns without storing the document: the notification is dropped and every later answer comes from a stale text")
+				}
+			}
+			if !bad {
+				ob.Pass(key, c.P.Pos(ci.Pos()), "every path through the arm stores the document")
+			}
+		}
+	}
+	if n == 0 {
+		ob.Unknown("notify-stored:none", "-", "no call of the document update found")
+	}
 }
